@@ -152,6 +152,9 @@ func (sp *simProc) genBatch(classified string, seed uint64, tier string, bn int,
 	from, to := batchRange(bn)
 	args := []string{"gen", "-corpus", classified, "-seed", strconv.FormatUint(seed, 10),
 		"-tier", tier, "-from", strconv.Itoa(from), "-to", strconv.Itoa(to), "-batch", strconv.Itoa(bn), "-out", out}
+	if sp.b.Instr != nil && sp.b.Instr.Seams["gc_lifetime"] > 0 {
+		args = append(args, "-lifetimes")
+	}
 	if bn%8 == 7 {
 		// soak batch: 50 runs in one process, all on one ecosystem
 		args = append(args, "-soak", strconv.Itoa(bn/8))
@@ -188,6 +191,9 @@ func (sp *simProc) simBatch(in, out string, keep, par bool, reps int) (*BatchRes
 	args := []string{mode, "-in", in, "-out", out, "-sites", strconv.Itoa(sp.nsites), "-racelog", racelog}
 	if keep {
 		args = append(args, "-keep")
+	}
+	if sp.b.Instr != nil && sp.b.Instr.Seams["gc_lifetime"] > 0 {
+		args = append(args, "-lifetimes")
 	}
 	if par {
 		args = append(args, "-reps", strconv.Itoa(reps))
@@ -431,6 +437,7 @@ func (a *agg) addBatch(b *Batch, br *BatchResult, keepSamples int) {
 		t.LeakedTasks += s.LeakedTasks
 		t.Selects += s.Selects
 		t.TimersFired += s.TimersFired
+		t.ForcedGCs += s.ForcedGCs
 		if s.MaxOpSteps > t.MaxOpSteps {
 			t.MaxOpSteps = s.MaxOpSteps
 		}
